@@ -168,7 +168,9 @@ class DbosWorld(EngineWorld):
                 t.cancel()
             await asyncio.gather(*pend, return_exceptions=True)
         dbos_emulator._instances.pop(inc.n, None)
-        self.live_runners.clear()
+        # only this process's control loops die with it (another replica may host a resumed run)
+        for rid in list(self.live_runners):
+            self.live_runners[rid] = [r for r in self.live_runners[rid] if getattr(r, "_sim_inc", inc.n) != inc.n]
         inc.workflows.clear()
         inc.runtime = inc.outer = None
         gc.collect()
